@@ -32,6 +32,12 @@ history  {"op": "history", "variant", "reset": bool (default true: the caches ar
                      cache key "key": expr …]}…]}
 answer   {"calls": [one answer as above per call, in order]}
 
+sethistory {"op": "sethistory", "variant", "set": [nat…] | null, "calls": [one call request as above (its
+            "caller" is ignored: every call receives the same set object) …]}
+answer     {"calls": [one call answer per call, each with "set_after"]}
+(every call answer carries "set_after": the content of the caller's set object after the call, also
+when it raised; null when no set was passed)
+
 find_nulls {"op": "find_nulls", "variant", "value": V}
 answer     {"nulls": [pos…] (sorted)} | {"error": kind}
 drop_rows  {"op": "drop_rows", "variant", "labels": [str…], "value": V, "indices": [nat…]}
@@ -179,15 +185,56 @@ def naOf (j : Json) : NAInput :=
   | .str s => .text s
   | _ => .member (policyOf (jstr j "policy"))
 
+def setJ : Option DropSet → Json
+  | some s => jnats (sorted s)
+  | none => Json.null
+
+/-- the answer to one call: its result or error, and the caller's set object afterwards -/
+def answerJ (res : Except Err (CallOut String Nat)) (after : Option DropSet) : Json :=
+  match res with
+  | .error e => Json.mkObj [("error", Json.str (errStr e)), ("set_after", setJ after)]
+  | .ok r =>
+    Json.mkObj [
+      ("parts", jlist (r.mats.map matrixJ)),
+      ("final", match r.callerAfter with | some s => jnats (sorted s) | none => Json.null),
+      ("set_after", setJ after)]
+
+def callRecOf (j : Json) (caller : Option DropSet) : CallRec :=
+  ⟨entryOf (jstr j "entry"), jbool j "structured", jbool j "overrides", jbool j "joint", caller⟩
+
 def handleCall (j : Json) : Json :=
   let v := variantOf j
   let n := jnat j "n"
-  let caller : Option DropSet := callerOf j
-  let c : CallRec := ⟨entryOf (jstr j "entry"), jbool j "structured", jbool j "overrides", jbool j "joint", caller⟩
+  let c := callRecOf j (callerOf j)
   let parts := (jarr j "parts").map partOf
-  match callNA v (strs j "labels") n (naOf j) (outputOf (jstr j "output")) parts c with
-  | .error e => jerr (errStr e)
-  | .ok r => calloutJ r
+  answerJ (callNA v (strs j "labels") n (naOf j) (outputOf (jstr j "output")) parts c)
+    (setAfterCallNA v (strs j "labels") n (naOf j) (outputOf (jstr j "output")) parts c)
+
+def setCallOf (j : Json) : SetCall String Nat :=
+  ⟨strs j "labels", jnat j "n", naOf j, outputOf (jstr j "output"), (jarr j "parts").map partOf,
+   callRecOf j none⟩
+
+/-- `runSetHistory` in segments: a call that carries `"set_override"` starts a new segment with that
+content (used after a DROP call whose null check raised: what it left in the set depends on the
+order in which the pooled factors were checked, which is not modelled) -/
+def runSegments (v : Variant) : List Json → Option DropSet → List (Except Err (CallOut String Nat) × Option DropSet)
+  | [], _ => []
+  | j :: r, s =>
+    let s0 : Option DropSet := match jval j "set_override" with
+      | .arr a => some (a.toList.map asNat).eraseDups
+      | _ => s
+    match runSetHistory v [setCallOf j] s0 with
+    | [x] => x :: runSegments v r x.2
+    | _ => []
+
+/-- `"op": "sethistory"`: ONE set object (`"set"`: its initial content, or null) handed to every call -/
+def handleSetHistory (j : Json) : Json :=
+  let v := variantOf j
+  let s0 : Option DropSet := match jval j "set" with
+    | .arr a => some (a.toList.map asNat).eraseDups
+    | _ => none
+  let rs := runSegments v (jarr j "calls") s0
+  Json.mkObj [("calls", jlist (rs.map (fun r => answerJ r.1 r.2)))]
 
 def handleFindNulls (j : Json) : Json :=
   match findNulls (variantOf j) (valueOf (jval j "value")) with
@@ -221,6 +268,7 @@ def handleDropRows (j : Json) : Json :=
 def handle (j : Json) : Json :=
   match jstr j "op" with
   | "history" => handleHistory j
+  | "sethistory" => handleSetHistory j
   | "find_nulls" => handleFindNulls j
   | "drop_rows" => handleDropRows j
   | _ => handleCall j
